@@ -31,6 +31,7 @@ def run(ctx):
     p4(ctx, F)
     p5(ctx, F)
     p6(ctx, F)
+    p8(ctx, F)
     from . import p04
     before, nv = len(ctx.instances), len(ctx.violations)
     p04.rule_k4(ctx, F)
@@ -41,6 +42,66 @@ def run(ctx):
         v["key"] = "C06.P7|" + v["key"]
     ctx.assume("A-HASH: equal 64-bit hash implies equal position (C05 gives only a minimum-distance bound; the structural part - "
                "every feature is keyed - is checked as P7)")
+
+
+def p8(ctx, F):
+    """P8 the root keeps a move whenever it has one to search: the bound a root move's score is compared with (`score > best_score`
+    decides whether it becomes the best move) starts at the minimum score, so the first move searched always becomes the best
+    move.  Every definition of that bound outside the move loop must be the minimum constant."""
+    fn = F.fn(ENTRY)
+    body = fn["hir"]["body"]
+    sym = hir.Sym(hir.Env(fn["hir"], F), F)
+    loop = None
+    for n, anc in hir.walk(body):
+        if n.get("k") == "Loop" and hir.calls(n, SCORE):
+            loop = n
+            break
+    if loop is None:
+        ctx.anchor_missing("C06.P8", "the root move loop (a loop calling get_best_move_score) in get_best_move_entry")
+        return
+    # the bound: right operand of the `score > bound` test whose branch assigns the best move
+    bounds = {}
+    for n, anc in hir.walk(loop):
+        if n.get("k") == "If":
+            c = hir.strip(n["cond"])
+            sets_move = any(x.get("k") == "Assign" and "Some" in hir.fmt(sym(x["r"]), 40) for x, _ in hir.walk(n["then"]))
+            if c.get("k") == "Binary" and c.get("op") in (">", "<", ">=", "<=") and sets_move:
+                for side in (c["l"], c["r"]):
+                    s0 = hir.strip(side)
+                    if s0.get("k") == "Path" and s0["to"].get("res") == "local" and "Mut" in str(_binder_mode(fn, s0["to"]["id"])):
+                        bounds[s0["to"]["id"]] = s0["to"]["name"]
+    ctx.floor("C06.P8", "root bounds a move's score is compared with", len(bounds), 1)
+    in_loop = {id(x) for x, _ in hir.walk(loop)}
+    for lid, name in bounds.items():
+        defs = []
+        for n, anc in hir.walk(body):
+            if id(n) in in_loop:
+                continue
+            if n.get("k") == "SLet" and n["pat"].get("k") == "PBind" and n["pat"].get("id") == lid and n.get("init") is not None:
+                defs.append((n, n["init"], "let"))
+            if n.get("k") in ("Assign", "AssignOp"):
+                l0 = hir.strip(n["l"])
+                if l0.get("k") == "Path" and l0["to"].get("res") == "local" and l0["to"].get("id") == lid:
+                    defs.append((n, n["r"], n["k"]))
+        for n, rhs, kind in defs:
+            v = hir.sym_int(hir.fold(hir.resolve_std_ints(hir.resolve_consts(sym(rhs), F)), {})) if kind != "AssignOp" else None
+            ctx.check("C06.P8", "root-bound-starts-at-the-minimum:%s" % name, v is not None and v <= -32767, fn=ENTRY, file=fn["file"], line=hir.line(n),
+                      what="the bound a root move must beat to become the best move does not start at the minimum score: when every move "
+                           "scores below it the root returns no move although legal moves exist",
+                      expected="Score::MIN + 1 (or lower), assigned nowhere else before the move loop", found=hir.fmt(sym(rhs), 100))
+
+
+def _binder_mode(fn, lid):
+    stack = [fn["hir"]]
+    while stack:
+        x = stack.pop()
+        if isinstance(x, list):
+            stack.extend(x)
+        elif isinstance(x, dict):
+            if x.get("k") == "PBind" and x.get("id") == lid:
+                return x.get("mode")
+            stack.extend(v for k_, v in x.items() if isinstance(v, (dict, list)) and k_ not in ("sp", "osp", "to"))
+    return None
 
 
 def returned_move_components(fn, F, pv):
@@ -238,6 +299,55 @@ def p4(ctx, F):
               found={"removals": [(r["name"], hir.line(r)) for r in removes], "after_shortcut": okr, "at_most_one": once})
 
 
+def bestmove_by_cases(best, go, F):
+    """Every `bestmove` print under the two cases of the driver's result R: with R = Some(M) every print that can be reached shows
+    uci_notation(M) in its first placeholder directly after `bestmove `; with R = None only `bestmove none` can be reached.
+    [] = holds, list of failing prints otherwise, None = the driver's result does not appear in the conditions."""
+    SOME, NONE = "std::prelude::v1::Some", ("variant", "std::prelude::v1::None")
+    R = None
+    for w in best:
+        for g in w[3]:
+            for t in hir.subterms(g[1]) if isinstance(g[1], tuple) else ():
+                if isinstance(t, tuple) and t[:2] == ("call", DRIVER):
+                    R = t
+    if R is None or not best:
+        return None
+    M = ("var", "RETURNED")
+    bad = []
+    for case, val in (("Some", ("ctor", SOME, (M,))), ("None", NONE)):
+        reachable = 0
+        for node, text, args, guards in best:
+            a = {R: val}
+            reach = hir.fold(hir.guards_term(guards), a)
+            if reach == ("lit", False) or hir.all_leaves_false(reach):
+                continue
+            reachable += 1
+            if case == "None":
+                if args or not (text or "").startswith("bestmove none"):
+                    bad.append(("no move returned", text, hir.line(node)))
+                continue
+            # names the conditions bind, as projections of what they test
+            env = {}
+            for g in guards:
+                pk_, scr = (g[1][1], g[1][2]) if (g[0] == "if" and isinstance(g[1], tuple) and g[1][:1] == ("let",)) else \
+                    ((g[2], g[1]) if g[0] == "arm" else (None, None))
+                for nm, path in (getattr(pk_, "paths", None) or {}).items():
+                    env[("var", nm)] = hir.project(scr, path)
+            shown = args[0][1] if args else None
+            okw = (text or "").startswith("bestmove {}") and shown is not None and shown[0] == "call" and \
+                shown[1] == "chess::move_struct::Move::uci_notation" and len(shown[2]) == 1
+            if okw:
+                x = hir.fold(hir.subst(shown[2][0], env), a)
+                if x[:1] == ("call",) and str(x[1]).endswith(("Option::<T>::unwrap", "Option::<T>::expect")) and x[2] and x[2][0] == val:
+                    x = M
+                okw = x == M
+            if not okw:
+                bad.append(("move returned", text, hir.fmt(shown, 80) if shown else None, hir.line(node)))
+        if reachable == 0:
+            bad.append(("no bestmove print reachable when the driver returns %s" % case,))
+    return bad
+
+
 def p5(ctx, F):
     from . import p14
     roles = p14.closures_by_role(F)
@@ -260,6 +370,13 @@ def p5(ctx, F):
         src = g[0][1][2] if len(g) == 1 else None
         found = {"printed": hir.fmt(arg, 80), "bound from": hir.fmt(src, 160) if src else None}
         ok = ok and src is not None and src[0] == "call" and src[1] == DRIVER
+    if not ok:
+        # not the reference spelling (extra text after the move, a match on several values ...): decide by cases on what the
+        # driver returned
+        bv = bestmove_by_cases(best, go, F)
+        if bv is not None:
+            ok = not bv
+            found = {"by cases": bv}
     ctx.check("C06.P5", "bestmove-prints-the-returned-move-or-none", ok, fn="uci::command_go", file=go["file"],
               line=hir.line(some[0][0]) if some else None,
               what="the UCI layer must print uci_notation() of exactly the move get_best_move_until_stop returned, and `none` iff it "
